@@ -11,3 +11,8 @@ func VerifPolyMod(v []byte) uint64 { return polyMod(v) }
 func VerifConvertBits(data []byte, fromBits uint, tobits uint, pad bool) ([]byte, error) {
 	return convertBits(data, fromBits, tobits, pad)
 }
+
+// VerifAppDataDir exposes appDataDir with an explicit operating system name.
+func VerifAppDataDir(goos, appName string, roaming bool) string {
+	return appDataDir(goos, appName, roaming)
+}
